@@ -12,7 +12,7 @@ From Coq Require Import List NArith ZArith Bool.
 From Lib Require Import Str Lex.
 From Gen Require Import Lit.
 From Model Require Import Lit.
-From Proofs Require Import LitStr LitTok LitStmt LitTop.
+From Proofs Require Import LitStr LitTok LitStmt LitTop LitSeq.
 Import ListNotations.
 Open Scope N_scope.
 
@@ -106,6 +106,40 @@ Theorem C02_sequence :
       tokens_ok d text (TPunct c_lp :: sep_tokens (TPunct c_comma) (map (lit_tokens d) vs) ++ [TPunct c_rp]).
 Proof. exact (@sequence_tokens). Qed.
 
+(* ---- a list of n values is written as exactly n members, the literal of each value, in order ---- *)
+(* text level: what SequenceConverter joins -- no member dropped, merged, repeated or reordered *)
+Theorem C02_sequence_text :
+  forall (d : dialect) (vs : list value) (text : str),
+    render d (VSeq vs) = Some text ->
+    exists rs, length rs = length vs /\
+               (forall i v, nth_error vs i = Some v -> exists r, nth_error rs i = Some r /\ render d v = Some r) /\
+               text = [40] ++ join [44; 32] rs ++ [41].
+Proof. exact (@sequence_text_count). Qed.
+
+(* token level: `members` cuts a token list `(` ... `)` at the commas outside every inner parenthesis;
+   the tokens of a list of values have exactly the literal tokens of each value as members (strings that
+   hold commas or parentheses and nested lists included -- every value, no guard) *)
+Theorem C02_list_members :
+  forall (d : dialect) (vs : list value),
+    members (lit_tokens d (VSeq vs)) = Some (map (lit_tokens d) vs).
+Proof. exact (@members_lit). Qed.
+
+(* ... and that is what the dialect's tokenizer reads from the rendered text *)
+Theorem C02_sequence_members :
+  forall (d : dialect) (vs : list value),
+    forallb (value_ok d) vs = true ->
+    exists text toks, render d (VSeq vs) = Some text /\ tokens_ok d text toks /\
+                      members toks = Some (map (lit_tokens d) vs).
+Proof. exact (@sequence_members). Qed.
+
+(* func.NAME(v1, ..., vn) (sqlbuilder.SQLCall): the name, then a list whose members are the n arguments *)
+Theorem C02_call_args :
+  forall (d : dialect) (name : str) (vs : list value),
+    safe_ident name = true -> forallb (value_ok d) vs = true ->
+    exists text toks, call_sql d name vs = Some text /\ tokens_ok d text (TWord name :: toks) /\
+                      members toks = Some (map (lit_tokens d) vs).
+Proof. exact (@call_members). Qed.
+
 (* ---- statements: the token skeleton is fixed by the template; data occur only as literal tokens ---- *)
 Theorem C02_insert :
   forall (d : dialect) (table : str) (names : list str) (values : list value),
@@ -173,6 +207,18 @@ Proof. reflexivity. Qed.
 Example C02_ex_sqlite_nul : sqlite_accepts (match render Sqlite (VStr [97; 0]) with Some t => t | None => [] end) = false.
 Proof. vm_compute. reflexivity. Qed.
 
+(* SUBSTR('a,b)', 3, 3): repeated arguments, a string holding a comma and a parenthesis, a nested list *)
+Example C02_ex_call_repeated :
+  match call_sql Sqlite [83; 85; 66] [VStr [97; 44; 98; 41]; VInt 3; VInt 3; VSeq [VInt 3; VInt 3]] with
+  | Some text => match tokens Sqlite text with TOk (_ :: toks) => option_map (@length _) (members toks) | _ => None end
+  | None => None
+  end = Some 4%nat.
+Proof. vm_compute. reflexivity. Qed.
+Example C02_ex_members_hostile :
+  members (lit_tokens Mysql (VSeq [VStr hostile; VStr hostile; VNone; VSeq []; VBool true])) =
+  Some [[TStr hostile]; [TStr hostile]; [TWord s_NULL]; [TPunct c_lp; TPunct c_rp]; [TNum 1%Z]].
+Proof. vm_compute. reflexivity. Qed.
+
 Print Assumptions C02_string_ansi.
 Print Assumptions C02_string_mysql.
 Print Assumptions C02_string_pg_partial.
@@ -181,6 +227,10 @@ Print Assumptions C02_sqlite_nul.
 Print Assumptions C02_enum_value_non_postgres.
 Print Assumptions C02_value_tokens.
 Print Assumptions C02_sequence.
+Print Assumptions C02_sequence_text.
+Print Assumptions C02_list_members.
+Print Assumptions C02_sequence_members.
+Print Assumptions C02_call_args.
 Print Assumptions C02_insert.
 Print Assumptions C02_update.
 Print Assumptions C02_where_clause.
